@@ -584,6 +584,14 @@ def _app_subclass(base):
     return _APP_SUBCLASSES[base]
 
 
+def _while_handling(thunk):
+    """the call made from inside an `except` block (a cache-miss fallback, a retry handler): exceptions raised inside then carry an implicit __context__"""
+    try:
+        raise KeyError("cache miss")
+    except KeyError:
+        return thunk()
+
+
 def equivalent_auth_calls(pol, a):
     """-> [(name, thunk)]: the same authentication call with its arguments in other shapes that denote the same values"""
     import webauthn, decimal, fractions
@@ -618,6 +626,14 @@ def equivalent_auth_calls(pol, a):
     out.append(("stored counter as a Fraction", lambda: call(d(), credential_current_sign_count=fractions.Fraction(pol.count))))
     out.append(("stored counter as a float", lambda: call(d(), credential_current_sign_count=float(pol.count))))
     out.append(("stored counter as an int subclass", lambda: call(d(), credential_current_sign_count=type("Count", (int,), {})(pol.count))))
+
+    def low_precision():
+        # the thread's decimal context is the application's business (prec=6 for money): an exact comparison of integers does not depend on it
+        with decimal.localcontext() as ctx:
+            ctx.prec = 6
+            return call(d(), credential_current_sign_count=decimal.Decimal(pol.count))
+    out.append(("stored counter as a Decimal under a decimal context of precision 6", low_precision))
+    out.append(("the call made while the calling thread is handling an exception", lambda: _while_handling(lambda: call(d()))))
     return out
 
 
@@ -670,6 +686,7 @@ def equivalent_reg_calls(pol, reg):
         out.append(("roots in a UserDict", lambda: call(d(), pem_root_certs_bytes_by_fmt=lambda m: collections.UserDict(dict(m)))))
         out.append(("roots in a hand-written Mapping", lambda: call(d(), pem_root_certs_bytes_by_fmt=lambda m: _UserMap(m))))
         out.append(("roots as tuples in an OrderedDict", lambda: call(d(), pem_root_certs_bytes_by_fmt=lambda m: collections.OrderedDict((k, tuple(v)) for k, v in m.items()))))
+    out.append(("the call made while the calling thread is handling an exception", lambda: _while_handling(lambda: call(d()))))
     return out
 
 
@@ -748,3 +765,35 @@ def reused_policy_containers(entry, pol, val, cdj, pr):
             kw2[k] = _pooled(k, items)
         out = outcome(lambda: entry(credential=val, **kw2), pr)
     return out
+
+
+
+def sequenced_record(base_cls, resp_cls, cred_fields, resp_fields, sequences):
+    """a credential record (instance of subclasses of the library's record classes) whose RESPONSE fields named in `sequences` read as sequences[name][0] the first
+    time, [1] the second time, ... (the last value from then on): what a property, a proxy object or a buffer rewritten by another thread gives.  All other fields are constant."""
+    class _Resp(resp_cls):
+        def __init__(self):
+            object.__setattr__(self, "_n", {})
+
+        def __getattribute__(self, name):
+            if name in resp_fields or name in sequences:
+                n = object.__getattribute__(self, "_n")
+                if name in sequences:
+                    i = n.get(name, 0)
+                    n[name] = i + 1
+                    seq = sequences[name]
+                    return seq[min(i, len(seq) - 1)]
+                return resp_fields[name]
+            return object.__getattribute__(self, name)
+
+    class _Cred(base_cls):
+        def __init__(self):
+            object.__setattr__(self, "_resp", _Resp())
+
+        def __getattribute__(self, name):
+            if name == "response":
+                return object.__getattribute__(self, "_resp")
+            if name in cred_fields:
+                return cred_fields[name]
+            return object.__getattribute__(self, name)
+    return _Cred()
